@@ -12,7 +12,7 @@ static size_t count_id(const std::vector<valid::Message> &m, const std::string &
 extern "C" void vh_c19_conforming() {
     nixsym_declare_reach("validated");
     World w; build_world(w);
-    w.da2.unit("mV"); w.pos.unit("s"); w.ext.unit("s"); w.feat.unit("V"); w.da_u.unit("V"); w.b2_pos.appendSetDimension(); w.b2_pos.unit("s");
+    w.da2.unit("mV"); w.pos.unit("s"); w.ext.unit("s"); w.feat.unit("V"); w.da_u.unit("V"); w.b2_pos.unit("s");                 // (the builder gave blk2/pos its data-frame dimension)
     w.da_u.getDimension(1);          // set dimension appended by the builder
     w.prop2.unit("kg");
     valid::Result r = w.f.validate();
@@ -133,4 +133,16 @@ extern "C" void vh_c19_tags() {
     if (no_feature_data) nixsym_assert(count_id(errs, fid) >= 1, "feature without data is not reported as an error");
     nixsym_assert(count_id(errs, p.id()) == 0 && count_id(errs, s.id()) == 0 && count_id(errs, a.id()) == 0, "soft-rule breaches and conforming entities produce no errors");
     nixsym_reach("validated");
+    // the verdict follows the file's CURRENT state: the unit of the first dimension is changed and the same process validates again
+    if (nu >= 1) {
+        du[0] = (du[0] + 1) % 3;
+        SampledDimension sd0 = a.getDimension(1).asSampledDimension();
+        if (du[0]) sd0.unit(std::string(DU[du[0]])); else sd0.unit(none);
+        unconvertible = false;
+        for (uint32_t i = 0; i < nu; i++) if (!(du[i] == 0 || (du[i] == 1 && tu[i] == 0) || (du[i] == 2 && tu[i] == 1))) unconvertible = true;
+        bool hard2 = invalid_unit || unconvertible || no_positions;
+        size_t n2 = count_id(f.validate().getErrors(), tid);
+        if (hard2) nixsym_assert(n2 >= 1, "after a dimension's unit changed: a tag whose units are no longer convertible is not reported (stale verdict)");
+        else nixsym_assert(n2 == 0, "after a dimension's unit changed: an error is still reported for a tag that now satisfies every hard rule (stale verdict)");
+    }
 }
